@@ -215,6 +215,10 @@ Section Model.
       else finish_put p hist deleted b
     end.
 
+  (* what no receiver accepts: a live revision whose body is {"_deleted":true} -- what a custom resolver that
+     answers null leaves behind (the receiver refuses the reserved property; a write failure, not a 409) *)
+  Definition unsendable (del : bool) (b : body) : bool := negb del && (b =? b_tomb).
+
   (* a transfer: offer the sender's current revision; the receiver skips it when rev_diff says it is
      known, otherwise applies it.  Act resolves conflicts with the default policy; Pas rejects them.
      Both sides exempt an incoming tombstone from the conflict check when their document is a tombstone. *)
@@ -224,7 +228,7 @@ Section Model.
     | Some (hist, del, b) =>
         match rev_diff (ptree dst) (firstn 1 hist) with
         | [] => (dst, TKnown)
-        | _ => put_existing resolver true dst hist del b
+        | _ => if unsendable del b then (dst, TError) else put_existing resolver true dst hist del b
         end
     end.
 
